@@ -33,7 +33,7 @@ RULE = (
     "under every usage pattern; list(gen) has iteration_limit elements, twice "
     "in a row. Non-trivial: a tuple range and a non-default flag are used."
 )
-BUDGET = {"quick": 1000, "thorough": 4000}
+BUDGET = {"quick": 1000, "thorough": 12000}
 ASSUMPTIONS = [
     "'drawn from all M machines' is decided on >= 300 operations (probability of a false alarm under a uniform draw < 1e-12)",
 ]
